@@ -373,7 +373,9 @@ def fixed_corpus():
                     L('token', 'abc', prio=4)], origin='fixed:prio-zigzag'))
     # many leaves (more than 64), all overlapping with one identifier pattern: per-state match lists and leaf tables beyond the
     # sizes small fixed buffers or bit sets would hold
-    out.append(Def([L('token', 'kw%02d' % j) for j in range(66)] + [L('regex', '[a-z]+[0-9]*'), L('skip', ' ')], origin='fixed:many-leaves'))
+    out.append(Def([L('token', 'kw%02d' % j) for j in range(66)] + [L('regex', '[a-z]+[0-9]*'), L('skip', ' '),
+                    # ... with tokens that nothing continues (decided as soon as they are read) among the leaves past 64
+                    L('token', '('), L('token', '=='), L('token', ';'), L('token', '=')], origin='fixed:many-leaves'))
     # an accepting loop state followed by an optional suffix that starts with two or more mandatory bytes (exponent, range
     # operator): a place where code might look ahead before committing
     out.append(Def([L('regex', '[0-9]+(e-[0-9]+)?'), L('regex', '[a-z]+(\\.\\.=[a-z]+)?'), L('token', '.'), L('skip', ' ')], origin='fixed:opt-suffix'))
